@@ -128,9 +128,19 @@ def _b(fr):
     return [fr.numerator, fr.denominator]
 
 
+def reduce_meter(count, unit):
+    """128/4096 is filled like 1/32: no value is shorter than a 128th."""
+    if unit > 128:
+        while count % 2 == 0 and unit > 1:
+            count //= 2
+            unit //= 2
+    return count, unit
+
+
 def fill_bar(rng, count, unit, depth, allow, max_entries=16):
     """Fill a bar of meter (count, unit) exactly.  Beats may be merged in
     pairs/fours when that yields a power-of-two span."""
+    count, unit = reduce_meter(count, unit)
     for _ in range(50):
         out = []
         i = 0
